@@ -179,6 +179,15 @@ func (txn *Txn[T]) CommitAndNotify() Tree[T] {
 // To close the watch channels call Notify(). You must call Notify() before
 // Tree.Txn().
 func (txn *Txn[T]) Commit() Tree[T] {
+	t := txn.commit()
+	// Store this txn in the tree to reuse the allocation next time.
+	t.prevTxn.Store(txn)
+	return t
+}
+
+// commit the transaction without offering it to the tree for reuse. Allows
+// the transaction to be used further after the commit.
+func (txn *Txn[T]) commit() Tree[T] {
 	newRootWatch := txn.rootWatch
 	if txn.dirty {
 		newRootWatch = make(chan struct{})
@@ -194,8 +203,6 @@ func (txn *Txn[T]) Commit() Tree[T] {
 		prevTxn:   txn.prevTxn,
 		nextTxnID: txn.txnID,
 	}
-	// Store this txn in the tree to reuse the allocation next time.
-	t.prevTxn.Store(txn)
 	return t
 }
 
